@@ -663,8 +663,7 @@ def tracked_attrs(cls, names):
         def setter(self, v):
             c = self.__dict__.get(slot)
             if c is None:
-                self.__dict__[slot] = c = SCell(v)
-                return
+                self.__dict__[slot] = c = SCell(None)
             c.set(v)
 
         return property(getter, setter)
